@@ -18,7 +18,7 @@ class P:
             "a barrier. (a) forced initialisation interleavings: the init probe hook parks the initialising thread for 150 ms before stage "
             "0 or after each of the four built-in registration stages while the other threads parse / execute / register; (b) plain races "
             "of 2-8 first calls; (c) registrations racing evaluations that use the registered name, re-registrations inside the window in which "
-            "the replaced handler is dropped, registrations arriving while an evaluation is inside a handler, and 100 rounds per process of a "
+            "the replaced handler is dropped, registrations arriving while an evaluation is inside a handler, and 200 rounds per process of a "
             "registration racing six first uses of that spelling, each followed by a sequential use. Oracle: no panic, no deadlock, and "
             "every call's result (value and final context; logs are interleaved and ignored) is one that the sequential model produces "
             "under some order of the same calls (all permutations are run through the extracted model). "
@@ -81,17 +81,23 @@ class P:
         for kind in "PSIF":
             for rep in range(3 if tier == "quick" else 40):
                 ops = ["H:61:rs(%s)" % hx("h61"), "PARSE:" + hx("1")]
-                for k in range(100):
-                    w = "w%s%d%d" % (kind.lower(), rep, k)
+                for k in range(200):
+                    w = "w%s%d_%d" % (kind.lower(), rep, k)
                     if kind == "P": reg, use, post = "REGP:%s:61" % hx(w), "PARSE:" + hx("%s 1" % w), "EXEC:1:" + hx("%s 5" % w)
                     elif kind == "S": reg, use, post = "REGS:%s:61" % hx(w), "PARSE:" + hx("1 %s" % w), "EXEC:1:" + hx("5 %s" % w)
                     elif kind == "I": reg, use, post = "REGI:%s:6f:0:0:61" % hx(w), "PARSE:" + hx("1 %s 2" % w), "EXEC:1:" + hx("5 %s 6" % w)
                     else: reg, use, post = "REGF:%s:61" % hx(w), "EXEC:2:" + hx("%s(1)" % w), "EXEC:1:" + hx("%s(5)" % w)
                     # the registering thread is spawned last (it then reaches the barrier last and is the one that releases the
                     # six readers, which are already waiting), or among the readers
-                    uses = [use] * 6
-                    par = uses + [reg] if k % 3 else uses[:3] + [reg] + uses[3:]
-                    ops += ["||"] + par + [";;", post]
+                    # the twelve uses start 0, 0.5, .. 5.5 microseconds into the round, and the instant of the registration is swept
+                    # over the first 10 microseconds in steps of 0.25 (how tightly the threads of a round start together depends
+                    # on what the machine did a moment ago; the window to hit is a fraction of a microsecond wide)
+                    uses = ["~n%d/%s" % (j * 500, use) for j in range(12)]
+                    reg = "~n%d/%s" % ((k % 40) * 250, reg)
+                    par = uses + [reg] if k % 3 else uses[:6] + [reg] + uses[6:]
+                    # (the last thread to reach the barrier releases the others and runs on at once: let that be a bystander, so
+                    # that the registration and the uses are all woken together)
+                    ops += ["||"] + par + ["PARSE:" + hx("0"), ";;", post]
                 items.append((" ".join(ops), ("first-use-race", kind, 5)))
         # re-registration (another precedence) racing parses on PERSISTENT threads, then the same threads parse again: whatever a
         # thread cached while the registration was in flight must not outlive the registration's return (per-thread caches die
@@ -120,6 +126,15 @@ class P:
             elif cur is not None:
                 cur.append(idx)
         return rounds
+
+    def run_impl(self, lines):
+        # the families that need two calls to overlap within a microsecond run one process at a time: several processes of a
+        # dozen threads each on the same cores lower the overlap rate (measured: the seeded races were then missed)
+        race = [l for l in lines if " ;; " in l]
+        rest = [l for l in lines if " ;; " not in l]
+        res = core.run_impl(rest)
+        res.update(core.run_lines([build.impl_bin("debug")], race, nshards=1))
+        return res
 
     def run_model(self, lines):
         # the sequential model on every order of the concurrent calls: the set of results each call may return.
